@@ -17,8 +17,9 @@ STYPE = "_x._tcp.local."
 def gen_net(rng, base):
     n = rng.choice([2, 2, 3, 3, 4, 5])
     lines = ["LOG on", "DUP %s" % rng.choice(["on", "off"])]
+    hostname = rng.choice(["vm", "vm", "vm", "BuildHost", "B\u00fcro"])      # the machine name all participants want
     for i in range(n):
-        lines.append("NODE %d 4:%d %s" % (i, base + 10 + i, nc.hexs("vm")))
+        lines.append("NODE %d 4:%d %s" % (i, base + 10 + i, nc.hexs(hostname)))
     maxd = rng.choice([1, 20, 300, 600, 900, 950])
     slow = rng.random() < 0.15       # every link near one second: a round trip of just under the 2 s probe wait
     if slow:
@@ -141,7 +142,7 @@ def explore(ctx, replay=None, search_boost=False):
             cc.report(ctx, violations, "monitor", "nodes %d and %d both confirmed and serve the instance name %s" % (i, j, bytes.fromhex(served[i]).decode(errors="replace")),
                       lines, brief, [], signature="dup-service-name:any-probe-unanswered")
     return {"evaluations": len(scripts), "distinct_nontrivial": len(nontrivial), "traces_validated_against_impl": len(scripts),
-            "rule": "networks of 2..5 nodes that all want the host name 'vm' (and, in 60 % of the cases, the service instance "
+            "rule": "networks of 2..5 nodes that all want one host name ('vm', or a mixed-case / non-ASCII one) (and, in 60 % of the cases, the service instance "
                     "'Printer._x._tcp.local.'), started one after another after the previous one had time to confirm, link delays 1..900 ms "
                     "(round trip < 2 s), optional multicast duplication, some newcomers hours later around the incumbents' 30-minute "
                     "re-probe; real Hostname/Provider/Prober objects through the real codec; at the end the registered host names and the "
